@@ -34,7 +34,7 @@ pub fn gen(seed: u64, tier: Tier, k: u64) -> Value {
             sort: None,
             unique_keys: false,
         };
-        let dir = DirCase { seed: rng.next(), vstores: vec![rng.chance(1, 2)], stores: vec![st], indexes: vec![IndexDef { name: "i".into(), store: 0, offset: 0, count: n as u32 }], defer: 0 };
+        let dir = DirCase { seed: rng.next(), vstores: vec![rng.chance(1, 2)], stores: vec![st], indexes: vec![IndexDef { name: "i".into(), store: 0, offset: 0, count: n as u32 }], defer: 0, free: 0 };
         return json!({"source": source, "dir": dir.to_json(), "ops_seed": rng.next()});
     }
     let comp = match source {
